@@ -3,8 +3,10 @@ package norm
 import (
 	"fmt"
 	"go/ast"
+	"go/token"
 	"go/types"
 	"sort"
+	"strings"
 )
 
 // renames maps consistently renamed unexported fields, functions and methods
@@ -102,12 +104,42 @@ func (n *normaliser) renames() bool {
 	}
 	for k, names := range missingF {
 		cands := unknownF[k]
-		if len(names) != 1 || len(cands) != 1 {
+		if len(names) == 1 && len(cands) == 1 {
+			// a helper extracted from a function that was removed at the same time would match by
+			// accident only if it has the very same receiver and signature: accept
+			targets = append(targets, target{cands[0], names[0], "function " + funcKey(n.declOf[cands[0]])})
 			continue
 		}
-		// a helper extracted from a function that was removed at the same time would match by
-		// accident only if it has the very same receiver and signature: accept
-		targets = append(targets, target{cands[0], names[0], "function " + funcKey(n.declOf[cands[0]])})
+		if len(names) == 0 || len(cands) < len(names) {
+			continue
+		}
+		// several same-shaped functions renamed at once (sender/receiver): tell them apart by what
+		// their bodies mention; accept only clear, mutually best matches
+		recv, _ := splitKey(k[:strings.Index(k, "|")] + ".x")
+		sort.Strings(names)
+		sort.Slice(cands, func(i, j int) bool { return cands[i].Name() < cands[j].Name() })
+		used := map[*types.Func]bool{}
+		for _, name := range names {
+			key := name
+			if recv != "" {
+				key = recv + "." + name
+			}
+			want := n.base.Prints[key]
+			best, second := -1.0, -1.0
+			var bestC *types.Func
+			for _, c := range cands {
+				sc := jaccard(want, fingerprint(n.declOf[c]))
+				if sc > best {
+					second, best, bestC = best, sc, c
+				} else if sc > second {
+					second = sc
+				}
+			}
+			if bestC != nil && !used[bestC] && best >= 0.4 && best-second >= 0.15 {
+				used[bestC] = true
+				targets = append(targets, target{bestC, name, "function " + funcKey(n.declOf[bestC])})
+			}
+		}
 	}
 	if len(targets) == 0 {
 		return false
@@ -163,4 +195,311 @@ func splitKey(k string) (recv, name string) {
 		}
 	}
 	return "", k
+}
+
+// typeRenames maps a renamed struct type back: the confirmed name is gone and
+// exactly one struct the baseline does not know has the same field names.
+func (n *normaliser) typeRenames() bool {
+	info := n.pk.TypesInfo
+	have := map[string]*types.TypeName{}
+	for _, f := range n.pk.Syntax {
+		if skipFile(n.pk, f) {
+			continue
+		}
+		for _, d := range f.Decls {
+			gd, ok := d.(*ast.GenDecl)
+			if !ok || gd.Tok != token.TYPE {
+				continue
+			}
+			for _, sp := range gd.Specs {
+				ts := sp.(*ast.TypeSpec)
+				if tn, ok := info.Defs[ts.Name].(*types.TypeName); ok {
+					if _, isStruct := tn.Type().Underlying().(*types.Struct); isStruct {
+						have[ts.Name.Name] = tn
+					}
+				}
+			}
+		}
+	}
+	fieldSet := func(m map[string]string) string {
+		var ks []string
+		for k := range m {
+			ks = append(ks, k)
+		}
+		sort.Strings(ks)
+		return strings.Join(ks, ",")
+	}
+	missing := map[string][]string{} // field-name set -> confirmed struct names that are gone
+	for name, fields := range n.base.Fields {
+		if _, ok := have[name]; !ok && !ast.IsExported(name) {
+			missing[fieldSet(fields)] = append(missing[fieldSet(fields)], name)
+		}
+	}
+	unknown := map[string][]*types.TypeName{}
+	for name, tn := range have {
+		if _, known := n.base.Fields[name]; known || tn.Exported() {
+			continue
+		}
+		st := tn.Type().Underlying().(*types.Struct)
+		m := map[string]string{}
+		for i := 0; i < st.NumFields(); i++ {
+			m[st.Field(i).Name()] = ""
+		}
+		unknown[fieldSet(m)] = append(unknown[fieldSet(m)], tn)
+	}
+	byObj := map[types.Object]string{}
+	for fs, names := range missing {
+		if c := unknown[fs]; len(names) == 1 && len(c) == 1 && fs != "" && n.pk.Types.Scope().Lookup(names[0]) == nil {
+			byObj[c[0]] = names[0]
+			n.res.Notes = append(n.res.Notes, fmt.Sprintf("renamed type %s back to %s", c[0].Name(), names[0]))
+		}
+	}
+	if len(byObj) == 0 {
+		return false
+	}
+	n.renameIdents(byObj)
+	return true
+}
+
+func (n *normaliser) renameIdents(byObj map[types.Object]string) {
+	info := n.pk.TypesInfo
+	for _, f := range n.pk.Syntax {
+		ast.Inspect(f, func(x ast.Node) bool {
+			id, ok := x.(*ast.Ident)
+			if !ok {
+				return true
+			}
+			obj := info.Uses[id]
+			if obj == nil {
+				obj = info.Defs[id]
+			}
+			if nn, hit := byObj[obj]; hit && obj != nil {
+				if fe, err := n.fe(f); err == nil {
+					fe.edits = append(fe.edits, edit{n.off(id.Pos()), n.off(id.End()), nn})
+				}
+			}
+			return true
+		})
+	}
+}
+
+// conversions turns a method that the confirmed tree has as a plain function
+// of the former receiver (or the reverse) back into that form, declaration
+// and calls. Only when every reference to it is a direct call.
+func (n *normaliser) conversions() bool {
+	info := n.pk.TypesInfo
+	q := types.RelativeTo(n.pk.Types)
+	did := false
+	for fn := range n.unknown {
+		fd := n.declOf[fn]
+		f := n.fileOf[fd]
+		sig := fn.Type().(*types.Signature)
+		// every use must be the callee of a call
+		var calls []*ast.CallExpr
+		var callFile []*ast.File
+		okUses := true
+		for _, file := range n.pk.Syntax {
+			ast.Inspect(file, func(x ast.Node) bool {
+				ce, ok := x.(*ast.CallExpr)
+				if !ok {
+					return true
+				}
+				switch fun := ast.Unparen(ce.Fun).(type) {
+				case *ast.Ident:
+					if info.Uses[fun] == types.Object(fn) {
+						calls = append(calls, ce)
+						callFile = append(callFile, file)
+					}
+				case *ast.SelectorExpr:
+					if info.Uses[fun.Sel] == types.Object(fn) {
+						if sel := info.Selections[fun]; sel == nil || sel.Kind() != types.MethodVal || len(sel.Index()) != 1 {
+							okUses = false
+						}
+						calls = append(calls, ce)
+						callFile = append(callFile, file)
+					}
+				}
+				return true
+			})
+		}
+		nUses := 0
+		for id, obj := range info.Uses {
+			_ = id
+			if obj == types.Object(fn) {
+				nUses++
+			}
+		}
+		if !okUses || nUses != len(calls) {
+			continue
+		}
+		var ps, rs []string
+		for i := 0; i < sig.Params().Len(); i++ {
+			ps = append(ps, types.TypeString(sig.Params().At(i).Type(), q))
+		}
+		for i := 0; i < sig.Results().Len(); i++ {
+			rs = append(rs, types.TypeString(sig.Results().At(i).Type(), q))
+		}
+		if sig.Variadic() {
+			continue
+		}
+		res := "(" + strings.Join(rs, ",") + ")"
+		if sig.Recv() == nil && len(ps) >= 1 {
+			// plain function now; a method of one of its parameters' type on the confirmed tree?
+			converted := false
+			for pi := 0; pi < len(ps) && !converted; pi++ {
+				recvT := strings.TrimPrefix(ps[pi], "*")
+				key := recvT + "." + fd.Name.Name
+				want, ok := n.base.Funcs[key]
+				rest := append(append([]string{}, ps[:pi]...), ps[pi+1:]...)
+				if !ok || n.decls[key] != nil || want != "("+strings.Join(rest, ",")+")"+res {
+					continue
+				}
+				// the parameter must be declared on its own: find its field
+				var fld *ast.Field
+				idx := 0
+				for _, fl := range fd.Type.Params.List {
+					cnt := len(fl.Names)
+					if cnt == 0 {
+						cnt = 1
+					}
+					if idx == pi && cnt == 1 && len(fl.Names) == 1 {
+						fld = fl
+					}
+					idx += cnt
+				}
+				if fld == nil {
+					continue
+				}
+				fe, err := n.fe(f)
+				if err != nil {
+					continue
+				}
+				// remove the parameter (with one adjacent comma) and add the receiver
+				src := fe.src
+				a, b := n.off(fld.Pos()), n.off(fld.End())
+				if pi < len(ps)-1 {
+					for b < len(src) && src[b] != ',' {
+						b++
+					}
+					b++
+					for b < len(src) && (src[b] == ' ' || src[b] == '\n' || src[b] == '\t') {
+						b++
+					}
+				} else if pi > 0 {
+					for a > 0 && src[a-1] != ',' {
+						a--
+					}
+					a--
+				}
+				fe.edits = append(fe.edits, edit{a, b, ""})
+				fe.edits = append(fe.edits, edit{n.off(fd.Name.Pos()), n.off(fd.Name.Pos()), "(" + n.text(f, fld.Pos(), fld.End()) + ") "})
+				for i, ce := range calls {
+					cf := callFile[i]
+					cfe, err := n.fe(cf)
+					if err != nil || len(ce.Args) != len(ps) {
+						continue
+					}
+					arg := ce.Args[pi]
+					a, b := n.off(arg.Pos()), n.off(arg.End())
+					src := cfe.src
+					if pi < len(ps)-1 {
+						b = n.off(ce.Args[pi+1].Pos())
+					} else if pi > 0 {
+						a = n.off(ce.Args[pi-1].End())
+					}
+					_ = src
+					cfe.edits = append(cfe.edits, edit{a, b, ""})
+					cfe.edits = append(cfe.edits, edit{n.off(ce.Fun.Pos()), n.off(ce.Fun.Pos()), "(" + n.text(cf, arg.Pos(), arg.End()) + ")."})
+				}
+				n.res.Notes = append(n.res.Notes, fmt.Sprintf("turned function %s back into method %s", fd.Name.Name, key))
+				did, converted = true, true
+			}
+			if converted {
+				continue
+			}
+		}
+		if sig.Recv() != nil {
+			// method now; a plain function taking the receiver first on the confirmed tree?
+			rt := types.TypeString(sig.Recv().Type(), q)
+			want, ok := n.base.Funcs[fd.Name.Name]
+			if ok && n.decls[fd.Name.Name] == nil && want == "("+strings.Join(append([]string{rt}, ps...), ",")+")"+res && n.pk.Types.Scope().Lookup(fd.Name.Name) == nil {
+				if len(fd.Recv.List) != 1 || len(fd.Recv.List[0].Names) != 1 {
+					continue
+				}
+				fe, err := n.fe(f)
+				if err != nil {
+					continue
+				}
+				recvText := n.text(f, fd.Recv.List[0].Pos(), fd.Recv.List[0].End())
+				sep := ""
+				if len(ps) > 0 {
+					sep = ", "
+				}
+				fe.edits = append(fe.edits, edit{n.off(fd.Recv.Pos()), n.off(fd.Type.Params.Opening) + 1, fd.Name.Name + "(" + recvText + sep})
+				_, rp := sig.Recv().Type().(*types.Pointer)
+				for i, ce := range calls {
+					cf := callFile[i]
+					cfe, err := n.fe(cf)
+					se, isSel := ast.Unparen(ce.Fun).(*ast.SelectorExpr)
+					if err != nil || !isSel {
+						continue
+					}
+					x := n.text(cf, se.X.Pos(), se.X.End())
+					_, xp := info.TypeOf(se.X).Underlying().(*types.Pointer)
+					switch {
+					case rp && !xp:
+						x = "&(" + x + ")"
+					case !rp && xp:
+						x = "*(" + x + ")"
+					}
+					sep := ""
+					if len(ce.Args) > 0 {
+						sep = ", "
+					}
+					cfe.edits = append(cfe.edits, edit{n.off(ce.Fun.Pos()), n.off(ce.Lparen) + 1, fd.Name.Name + "(" + x + sep})
+				}
+				n.res.Notes = append(n.res.Notes, fmt.Sprintf("turned method %s back into function %s", funcKey(fd), fd.Name.Name))
+				did = true
+				continue
+			}
+		}
+		if sig.Recv() == nil {
+			// receiver dropped because it was unused: restore it as a blank receiver
+			for key, want := range n.base.Funcs {
+				recv, name := splitKey(key)
+				if recv == "" || name != fd.Name.Name || n.decls[key] != nil || want != "("+strings.Join(ps, ",")+")"+res {
+					continue
+				}
+				tn, _ := n.pk.Types.Scope().Lookup(recv).(*types.TypeName)
+				if tn == nil {
+					continue
+				}
+				zero := ""
+				switch tn.Type().Underlying().(type) {
+				case *types.Slice, *types.Map, *types.Chan, *types.Signature, *types.Interface:
+					zero = recv + "(nil)"
+				case *types.Struct:
+					zero = recv + "{}"
+				default:
+					continue
+				}
+				fe, err := n.fe(f)
+				if err != nil {
+					continue
+				}
+				fe.edits = append(fe.edits, edit{n.off(fd.Name.Pos()), n.off(fd.Name.Pos()), "(_ " + recv + ") "})
+				for i, ce := range calls {
+					cfe, err := n.fe(callFile[i])
+					if err != nil {
+						continue
+					}
+					cfe.edits = append(cfe.edits, edit{n.off(ce.Fun.Pos()), n.off(ce.Fun.Pos()), zero + "."})
+				}
+				n.res.Notes = append(n.res.Notes, fmt.Sprintf("restored the dropped (unused) receiver of %s", key))
+				did = true
+				break
+			}
+		}
+	}
+	return did
 }
